@@ -103,10 +103,16 @@ func c05ParseErr(t []string) (error, []string, bool) {
 		a, ok1 := str(1)
 		b, ok2 := str(2)
 		c, ok3 := str(3)
-		if !(ok1 && ok2 && ok3) {
+		d, ok4 := str(4)
+		e, ok5 := str(5)
+		if !(ok1 && ok2 && ok3 && ok4 && ok5) {
 			return nil, nil, false
 		}
-		return &vgirpc.RpcError{Type: a, Message: b, Kind: c}, t[4:], true
+		re := &vgirpc.RpcError{Type: a, Message: b, Kind: c, Traceback: d, RequestID: e}
+		if d != "" || e != "" {
+			c05FillUnknownFields(re)
+		}
+		return re, t[6:], true
 	case "notimpl":
 		a, ok1 := str(1)
 		b, ok2 := str(2)
@@ -188,6 +194,41 @@ func c05ParseErr(t []string) (error, []string, bool) {
 		return e, t[5:], true
 	}
 	return nil, nil, false
+}
+
+// c05KnownRpcFields are the RpcError fields the script sets explicitly. Any OTHER exported field
+// (one added to the struct later) is found by reflection and filled with a marker, so that a
+// field the envelope starts to copy is exercised without touching this file.
+var c05KnownRpcFields = map[string]bool{"Type": true, "Message": true, "Kind": true, "Traceback": true, "RequestID": true}
+
+const c05FieldMarker = "C05-FIELD-MARKER-"
+const c05TBMarker = "C05-TB-MARKER"
+
+func c05FillUnknownFields(e *vgirpc.RpcError) {
+	v := reflect.ValueOf(e).Elem()
+	for i := 0; i < v.NumField(); i++ {
+		f := v.Type().Field(i)
+		if !f.IsExported() || c05KnownRpcFields[f.Name] || !v.Field(i).CanSet() {
+			continue
+		}
+		switch f.Type.Kind() {
+		case reflect.String:
+			v.Field(i).SetString(c05FieldMarker + f.Name)
+		case reflect.Slice:
+			switch f.Type.Elem().Kind() {
+			case reflect.String:
+				v.Field(i).Set(reflect.ValueOf([]string{c05FieldMarker + f.Name}).Convert(f.Type))
+			case reflect.Uint8:
+				v.Field(i).SetBytes([]byte(c05FieldMarker + f.Name))
+			}
+		case reflect.Map:
+			if f.Type.Key().Kind() == reflect.String && f.Type.Elem().Kind() == reflect.String {
+				m := reflect.MakeMap(f.Type)
+				m.SetMapIndex(reflect.ValueOf("k").Convert(f.Type.Key()), reflect.ValueOf(c05FieldMarker+f.Name).Convert(f.Type.Elem()))
+				v.Field(i).Set(m)
+			}
+		}
+	}
 }
 
 // c05CapErr builds a real *externalCapError whose message is exactly msg cannot be done (the
@@ -439,6 +480,8 @@ type c05Obs struct {
 	etype, emsg, tb           string
 	nframes                   int
 	extraOK, hasTypeKey       bool
+	allMeta                   string // every key and value of the EXCEPTION batch's metadata, concatenated
+	extraKeys                 []string
 }
 
 func (o *c05Obs) line() string {
@@ -487,6 +530,9 @@ func c05Scan(body []byte, o *c05Obs) {
 			}
 			o.found = true
 			o.level = lvl
+			for i, k := range md.Keys() {
+				o.allMeta += k + "\x00" + md.Values()[i] + "\x00"
+			}
 			o.logMsg, _ = md.GetValue(vgirpc.MetaLogMessage)
 			o.extra, _ = md.GetValue(vgirpc.MetaLogExtra)
 			if i := md.FindKey(vgirpc.MetaErrorKind); i >= 0 {
@@ -495,6 +541,10 @@ func c05Scan(body []byte, o *c05Obs) {
 			var raw map[string]json.RawMessage
 			if json.Unmarshal([]byte(o.extra), &raw) == nil {
 				o.extraOK = true
+				for k := range raw {
+					o.extraKeys = append(o.extraKeys, k)
+				}
+				sort.Strings(o.extraKeys)
 				if v, ok := raw["exception_type"]; ok {
 					o.hasTypeKey = json.Unmarshal(v, &o.etype) == nil
 				}
@@ -820,6 +870,23 @@ func c05Oracle(c *Case, where string, o *c05Obs, err error, isPanic bool, pv any
 	if o.level != "EXCEPTION" {
 		c.Oracle("not-exception-level", fmt.Sprintf("%q: level %q", line, o.level))
 	}
+	// An RpcError's own Traceback (a relayed upstream stack) and any field this harness does not
+	// know are never copied into the envelope: not with debug off (the clause of the property),
+	// and with debug on the traceback is this process's own.
+	for _, re := range c05RpcErrorsIn(err, pv) {
+		if !strings.Contains(re.Traceback, c05TBMarker) || !strings.Contains(o.allMeta, c05TBMarker) {
+			continue
+		}
+		if !debug {
+			c.Oracle("rpc-own-traceback-leaked-without-debug", fmt.Sprintf("%q: the RpcError's own Traceback field %q appears in the EXCEPTION batch metadata although debug errors are off", line, re.Traceback))
+		} else {
+			c.Oracle("rpc-own-traceback-replaces-runtime-stack", fmt.Sprintf("%q: the envelope carries the RpcError's own Traceback field %q instead of this process's stack", line, re.Traceback))
+		}
+		break
+	}
+	if strings.Contains(o.allMeta, c05FieldMarker) {
+		c.Oracle("rpc-unknown-field-copied-into-envelope", fmt.Sprintf("%q: a field of RpcError not known to the property reached the metadata: %.300q", line, o.allMeta))
+	}
 	if !debug && (o.tb != "" || o.nframes > 0) {
 		c.Oracle("traceback-without-debug", fmt.Sprintf("%q: traceback %d bytes, %d frames with debug errors off", line, len(o.tb), o.nframes))
 	}
@@ -827,6 +894,34 @@ func c05Oracle(c *Case, where string, o *c05Obs, err error, isPanic bool, pv any
 		c.Oracle("traceback-missing-with-debug", fmt.Sprintf("%q: traceback %d bytes, %d frames with debug errors on", line, len(o.tb), o.nframes))
 	}
 	c.Stat("shape:" + shape)
+}
+
+// c05RpcErrorsIn returns every *RpcError reachable from the raised value (itself, wrapped, joined,
+// or thrown as a panic value).
+func c05RpcErrorsIn(err error, pv any) []*vgirpc.RpcError {
+	var out []*vgirpc.RpcError
+	var walk func(e error)
+	walk = func(e error) {
+		if e == nil {
+			return
+		}
+		if re, ok := e.(*vgirpc.RpcError); ok {
+			out = append(out, re)
+		}
+		switch u := e.(type) {
+		case interface{ Unwrap() error }:
+			walk(u.Unwrap())
+		case interface{ Unwrap() []error }:
+			for _, x := range u.Unwrap() {
+				walk(x)
+			}
+		}
+	}
+	walk(err)
+	if pe, ok := pv.(error); ok {
+		walk(pe)
+	}
+	return out
 }
 
 func c05Rendered(pv any) string {
@@ -1094,6 +1189,13 @@ var c05Strings = []string{
 	"handler panicked: nested", "Unknown method: 'x'", ": ", " ", "Ünïcode_Kind", "UPPER", "0", "-1",
 }
 
+// Upstream tracebacks a relayed RpcError may carry in its own Traceback field (markers).
+var c05Tracebacks = []string{
+	"C05-TB-MARKER goroutine 99 [running]:\nmain.secret(0xc000012345)\n\t/srv/upstream/app.go:42 +0x1d",
+	"C05-TB-MARKER Traceback (most recent call last):\n  File \"/opt/upstream/svc.py\", line 7, in handler\nValueError: x",
+	"C05-TB-MARKER one-line", "C05-TB-MARKER \"quoted\" <&> ü 日本",
+}
+
 func c05Str(r *Rng) string {
 	switch r.Intn(10) {
 	case 0:
@@ -1130,7 +1232,14 @@ func c05GenErr(r *Rng, depth int) string {
 		if r.Chance(45) {
 			kind = c05Str(r)
 		}
-		return fmt.Sprintf("rpc %s %s %s", XS(c05TypeStr(r)), XS(c05Str(r)), XS(kind))
+		tb, rid := "", ""
+		if r.Chance(60) {
+			tb = Pick(r, c05Tracebacks)
+		}
+		if r.Chance(50) {
+			rid = Pick(r, []string{"C05-RID-MARKER-req-1", "0123456789abcdef", "ü-req", " "})
+		}
+		return fmt.Sprintf("rpc %s %s %s %s %s", XS(c05TypeStr(r)), XS(c05Str(r)), XS(kind), XS(tb), XS(rid))
 	case x < 28:
 		return fmt.Sprintf("notimpl %s %s", XS(c05Str(r)), XS(Pick(r, []string{"", "", c05Str(r)})))
 	case x < 33:
@@ -1196,17 +1305,19 @@ func c05Gen(g *Gen) {
 	r := g.Rng
 	// (c) small exhaustive part: every top-level error shape × every site × transport × debug
 	shapes := []string{
-		"ret rpc " + XS("ValueError") + " " + XS("m") + " " + XS("k"),
-		"ret rpc " + XS("") + " " + XS("") + " " + XS(""),
+		"ret rpc " + XS("ValueError") + " " + XS("m") + " " + XS("k") + " x x",
+		"ret rpc " + XS("ValueError") + " " + XS("relayed") + " " + XS("k") + " " + XS(c05Tracebacks[0]) + " " + XS("C05-RID-MARKER-req-1"),
+		"ret rpc " + XS("") + " " + XS("") + " " + XS("") + " x x",
 		"ret notimpl " + XS("meth") + " x", "ret pv " + XS("too old"), "ret lost x", "ret lost " + XS("gone"), "ret drain",
 		"ret cap " + XS("m"), "ret plain " + XS("plain failure"),
-		"ret wrap " + XS("ctx: ") + " rpc " + XS("ValueError") + " " + XS("m") + " " + XS("k"),
+		"ret wrap " + XS("ctx: ") + " rpc " + XS("ValueError") + " " + XS("m") + " " + XS("k") + " " + XS(c05Tracebacks[1]) + " x",
 		"ret wrap " + XS("ctx: ") + " lost " + XS("gone"),
-		"ret join plain " + XS("a") + " rpc " + XS("T") + " " + XS("b") + " x",
+		"ret join plain " + XS("a") + " rpc " + XS("T") + " " + XS("b") + " x " + XS(c05Tracebacks[2]) + " " + XS("r"),
 		"ret custom val " + XS("v") + " x x", "ret custom ptr " + XS("v") + " x x",
 		"ret custom kind " + XS("v") + " " + XS("my_kind") + " x", "ret custom type " + XS("v") + " x " + XS("KeyError"),
 		"ret custom both " + XS("v") + " " + XS("kk") + " " + XS("KeyError"),
 		"panic str " + XS("boom"), "panic int 7", "panic nil", "panic err plain " + XS("inner"),
+		"panic err rpc " + XS("ValueError") + " " + XS("thrown") + " x " + XS(c05Tracebacks[0]) + " x",
 	}
 	var sites []string
 	if g.Thorough() {
@@ -1246,7 +1357,7 @@ func c05Gen(g *Gen) {
 			"\u2028\u2029", "a\x00b", strings.Repeat("é", 700), "RuntimeError", "exception_type", "null", "\"", "'"})
 		x := XS(h)
 		g.Case(
-			fmt.Sprintf("write %d rpc %s %s %s", r.Intn(2), x, x, x),
+			fmt.Sprintf("write %d rpc %s %s %s %s %s", r.Intn(2), x, x, x, x, x),
 			fmt.Sprintf("raise %s %s %d ret wrap %s custom both %s %s %s", Pick(r, []string{"pipe", "http"}), Pick(r, c05SiteList), r.Intn(2), x, x, x, x),
 			fmt.Sprintf("raise %s %s %d panic str %s", Pick(r, []string{"pipe", "http"}), Pick(r, c05SiteList), r.Intn(2), x),
 			fmt.Sprintf("write %d join notimpl %s %s lost %s", r.Intn(2), x, x, x),
